@@ -1493,10 +1493,13 @@ int ov_pcm_seek_page(OggVorbis_File *vf,ogg_int64_t pos){
         bisect=begin;
       }else{
         /* take a (pretty decent) guess. */
-        bisect=begin +
-          (ogg_int64_t)((double)(target-begintime)*(end-begin)/(endtime-begintime))
-          - CHUNKSIZE;
-        if(bisect<begin+CHUNKSIZE)
+        if(endtime>begintime)
+          bisect=begin +
+            (ogg_int64_t)((double)(target-begintime)*(end-begin)/(endtime-begintime))
+            - CHUNKSIZE;
+        else
+          bisect=begin; /* zero-length link: nothing to interpolate */
+        if(bisect<begin+CHUNKSIZE || bisect>=end)
           bisect=begin;
       }
 
